@@ -845,7 +845,7 @@ func Run(r *ev.Run, replay string) {
 	r.Gate("lineages:nontrivial", compared*6/10)
 	r.GateNontrivial(compared * 55 / 100)
 	for _, f := range []string{"profile:default", "profile:jdk", "profile:jdk-range", "profile:os", "import", "import:nested", "import:from-ancestor", "parent-depth:4", "boms:3",
-		"exclusions", "classifier", "type", "prop:chained", "prop:override-in-chain", "prop:override-in-profile", "version:builtin", "dup-in-file:deps", "dup-in-file:mgmt", "deps:in-profile", "mgmt:in-profile", "inherit:version"} {
+		"exclusions", "classifier", "type", "prop:chained", "prop:override-in-chain", "prop:override-in-profile", "version:builtin", "dup-in-file:deps", "dup-in-file:mgmt", "deps:in-profile", "mgmt:in-profile", "inherit:version", "profile:jdk-rare", "bom:parent-builtin"} {
 		r.Gate("feature:"+f, 5)
 	}
 	r.Gate("nontrivial:managed-version", 50)
